@@ -80,7 +80,7 @@ def SymBoolAnd(*xs):
     return And(*xs)
 
 
-OPTS = {'quick': dict(max_paths=2000, timeout_ms=20000), 'thorough': dict(max_paths=2000, timeout_ms=60000)}
+OPTS = {'quick': dict(max_paths=2000, timeout_ms=60000), 'thorough': dict(max_paths=2000, timeout_ms=180000)}
 
 
 def body(I, case):
